@@ -145,8 +145,6 @@ func vC43_producer() {
 // ------------------------------------------------------------------------------------------------------------------
 // consumer side: the receive buffer never exceeds the window; nothing beyond the granted demand is kept
 
-var vC43_window int
-
 func vC43_ctell(x *consumerController, ctx *ReceiveContext, to *PID, message any) {
 	if r, ok := message.(*commands.Request); ok {
 		vAssert(r.RequestUpToSeq() == r.ConfirmedSeq()+int64(x.window), "every Request grants exactly confirmedSeq+window")
